@@ -7,3 +7,6 @@ func verifSpawn(r Runnable) bool { return false }
 
 // verifYield is a no-op unless the package is built with the verif tag.
 func verifYield(op string) {}
+
+// verifRangeOrder is nil (= "range the map as usual") unless the package is built with the verif tag.
+func verifRangeOrder[K, V any](m UnsafeGoMap[K, V]) []any { return nil }
